@@ -56,6 +56,11 @@ type c08Db struct {
 	paRuns  map[string]int // pre-commit action executions per registration label
 	tc      int            // tx-complete listener executions
 	sig     chan struct{}
+
+	regs     []c08Reg       // registrations with several change types (REGS section), store_c08_w2.go
+	nMulti   int            // deliveries to them
+	multiPer map[string]int // "store/C" -> number of those registrations on the store that name the change
+	reruns   int            // times bbolt ran a transaction function again after it had succeeded
 }
 
 func (c *c08Db) signal() {
@@ -179,7 +184,7 @@ var c08Changes = []struct {
 	{"D", boltz.EntityDeleted, boltz.EntityDeletedAsync},
 }
 
-func openC08Db(w *wiring, dir string) (*c08Db, error) {
+func openC08Db(w *wiring, dir string, regs []c08Reg) (*c08Db, error) {
 	h, err := openHarnessDb(w, dir)
 	if err != nil {
 		return nil, err
@@ -214,6 +219,10 @@ func openC08Db(w *wiring, dir string) (*c08Db, error) {
 		}
 		gs.AddEntityConstraint(&c08Constraint{c: c, store: store})
 		gs.AddUntypedEntityConstraint(&c08UntypedConstraint{c: c, store: store})
+	}
+	if err := c.registerMulti(regs); err != nil {
+		h.close()
+		return nil, err
 	}
 	h.db.AddTxCompleteListener(func(boltz.MutateContext) {
 		c.mu.Lock()
@@ -253,7 +262,7 @@ func (c *c08Db) drain() ([]string, map[string]int, map[string]int, int) {
 	defer c.mu.Unlock()
 	toks := c.toks
 	ca, pa, tc := c.caRuns, c.paRuns, c.tc
-	c.toks, c.nAsync, c.ca, c.tc = nil, 0, 0, 0
+	c.toks, c.nAsync, c.ca, c.tc, c.nMulti = nil, 0, 0, 0, 0
 	c.caRuns, c.paRuns = map[string]int{}, map[string]int{}
 	c.evCount = map[string]int{}
 	sort.Strings(toks)
@@ -272,15 +281,16 @@ func (c *c08Db) await(committed bool, nActions int) bool {
 	ok := true
 	for {
 		c.mu.Lock()
-		want := 0
-		for _, n := range c.evCount {
+		want, wantMulti := 0, 0
+		for k, n := range c.evCount {
 			want += n * c08AsyncStyles
+			wantMulti += n * c.multiPer[k]
 		}
 		wantCa := 0
 		if committed {
 			wantCa = nActions
 		}
-		done := c.nAsync >= want && c.ca >= wantCa
+		done := c.nAsync >= want && c.ca >= wantCa && c.nMulti >= wantMulti
 		c.mu.Unlock()
 		if done {
 			break
@@ -475,6 +485,14 @@ func (c *c08Db) runTx(t *hTx, mode, prog string) *c08Seg {
 	h.mu.Unlock()
 
 	ctx := boltz.NewMutateContext(context.Background())
+	// pseudo veto "@ctx" (shared harness): the caller keeps ONE context for all its transactions - also
+	// after one of them was rolled back.  Programs of such transactions register nothing on it.
+	if _, shared := c08PseudoVeto(t, "@ctx"); shared {
+		if h.sharedCtx == nil {
+			h.sharedCtx = boltz.NewMutateContext(context.Background())
+		}
+		ctx = h.sharedCtx
+	}
 	if t.Sys {
 		ctx = ctx.GetSystemContext()
 	}
@@ -486,7 +504,13 @@ func (c *c08Db) runTx(t *hTx, mode, prog string) *c08Seg {
 	}
 	preC, preP, preRegC, preRegP := x.nC, x.nP, len(x.regC), len(x.regP)
 	body := func(ctx boltz.MutateContext) (err error) {
-		// bbolt's Batch re-runs a failed function on its own: start from scratch
+		// bbolt's Batch re-runs a failed function on its own - and an innocent one whose batch partner
+		// failed: start from scratch
+		if x.bodyDone {
+			c.mu.Lock()
+			c.reruns++
+			c.mu.Unlock()
+		}
 		x.results, x.opIdx, x.bodyDone = nil, 0, false
 		x.nC, x.nP, x.regC, x.regP = preC, preP, x.regC[:preRegC], x.regP[:preRegP]
 		c.mu.Lock()
@@ -506,7 +530,9 @@ func (c *c08Db) runTx(t *hTx, mode, prog string) *c08Seg {
 		return err
 	}
 	var err error
-	if mode == "bat" {
+	if partners, co := c08PseudoVeto(t, c08CoBatch); co && mode == "bat" && partners != "" {
+		err = c.runCoalesced(ctx, body, partners)
+	} else if mode == "bat" {
 		err = h.db.Batch(ctx, body)
 	} else {
 		err = h.db.Update(ctx, body)
@@ -584,12 +610,13 @@ func c08HookTokens(tag string, registered []string, runs map[string]int, committ
 // generator uses them to bias its choices; a corpus / replay history ignores them).  Deliveries that
 // arrive after their transaction's observation was taken show up in the next segment (or as LATE tokens
 // at the end).
-func runHistoryC08(w *wiring, next func(k int, facts []string) (*hTx, string), mode, dir string) (string, string, []hTx, []string, error) {
-	c, err := openC08Db(w, dir)
+func runHistoryC08(w *wiring, regs []c08Reg, next func(k int, facts []string) (*hTx, string), mode, dir string) (string, string, []hTx, []string, error) {
+	c, err := openC08Db(w, dir, regs)
 	if err != nil {
 		return "", "", nil, nil, err
 	}
 	defer c.h.close()
+	defer func() { c08Reruns += c.reruns }()
 	var cs strings.Builder
 	var segs []*c08Seg
 	var txs []hTx
@@ -632,7 +659,14 @@ func runHistoryC08(w *wiring, next func(k int, facts []string) (*hTx, string), m
 	for _, s := range segs {
 		o.WriteString(s.String())
 	}
-	head := fmt.Sprintf("MODE %s HOOKS %d %s %s", mode, len(progs), strings.Join(progs, " "), w.text())
+	head := fmt.Sprintf("MODE %s HOOKS %d %s", mode, len(progs), strings.Join(progs, " "))
+	if len(regs) > 0 {
+		head += fmt.Sprintf(" REGS %d", len(regs))
+		for _, reg := range regs {
+			head += " " + reg.String()
+		}
+	}
+	head += " " + w.text()
 	return head + cs.String(), o.String(), txs, progs, nil
 }
 
@@ -648,24 +682,40 @@ func c08FixedHistory(txs []hTx, progs []string) func(int, []string) (*hTx, strin
 	}
 }
 
-// c08SplitHead takes "MODE <m> [HOOKS <n> <prog>...]" off a case line
-func c08SplitHead(line string) (mode string, progs []string, rest string) {
+// c08SplitHead takes "MODE <m> [HOOKS <n> <prog>...] [REGS <n> <registration>...]" off a case line
+func c08SplitHead(line string) (mode string, progs []string, regs []c08Reg, rest string, err error) {
 	mode = "upd"
 	if strings.HasPrefix(line, "MODE ") {
 		parts := strings.SplitN(line, " ", 3)
 		mode, line = parts[1], parts[2]
 	}
-	if strings.HasPrefix(line, "HOOKS ") {
+	section := func(tag string) []string {
+		if !strings.HasPrefix(line, tag+" ") {
+			return nil
+		}
 		parts := strings.SplitN(line, " ", 3)
 		var n int
 		fmt.Sscanf(parts[1], "%d", &n)
-		rest := strings.SplitN(parts[2], " ", n+1)
-		if len(rest) == n+1 {
-			return mode, rest[:n], rest[n]
+		items := strings.SplitN(parts[2], " ", n+1)
+		if len(items) != n+1 {
+			return nil
 		}
+		line = items[n]
+		return items[:n]
 	}
-	return mode, nil, line
+	progs = section("HOOKS")
+	for _, tok := range section("REGS") {
+		reg, e := c08ParseReg(tok)
+		if e != nil {
+			return mode, progs, nil, line, e
+		}
+		regs = append(regs, reg)
+	}
+	return mode, progs, regs, line, nil
 }
+
+// how often bbolt re-ran a transaction function that had already succeeded (coalesced Db.Batch calls)
+var c08Reruns int
 
 func runC08(o *opts) error {
 	cases := newLineWriter(o.out, "cases.txt")
@@ -699,6 +749,12 @@ func runC08(o *opts) error {
 			if len(t.Vetoes) > 0 {
 				stats["tx_veto"]++
 			}
+			if _, ok := c08PseudoVeto(&t, "@ctx"); ok {
+				stats["tx_shared_ctx"]++
+			}
+			if _, ok := c08PseudoVeto(&t, c08CoBatch); ok {
+				stats["tx_coalesced_batch"]++
+			}
 			if t.PreCommitErr {
 				stats["tx_precommit_err"]++
 			}
@@ -720,12 +776,15 @@ func runC08(o *opts) error {
 			if line == "" || strings.HasPrefix(line, "#") {
 				continue
 			}
-			mode, progs, line := c08SplitHead(line)
+			mode, progs, regs, line, err := c08SplitHead(line)
+			if err != nil {
+				return fmt.Errorf("corpus %s: %v", cp, err)
+			}
 			w, txs, err := parseCase(line)
 			if err != nil {
 				return fmt.Errorf("corpus %s: %v", cp, err)
 			}
-			cl, obs, _, _, err := runHistoryC08(w, c08FixedHistory(txs, progs), mode, tmp)
+			cl, obs, _, _, err := runHistoryC08(w, regs, c08FixedHistory(txs, progs), mode, tmp)
 			if err != nil {
 				return err
 			}
@@ -750,19 +809,28 @@ func runC08(o *opts) error {
 		} else if i >= n {
 			mode = "bat"
 		}
-		w := wiringByName(allWirings[i%len(allWirings)])
+		w := wiringByName(c08Wirings[i%len(c08Wirings)])
 		w.derive()
 		g := newC08Gen(r, w)
 		nTx := 2 + r.intn(5)
-		cl, obs, txs, progs, err := runHistoryC08(w, func(k int, facts []string) (*hTx, string) {
+		var regs []c08Reg
+		var kind c08History
+		if mode != "swl" {
+			regs = g.genRegs()
+			kind = g.genHistoryKind(mode)
+		}
+		cl, obs, txs, progs, err := runHistoryC08(w, regs, func(k int, facts []string) (*hTx, string) {
 			if k >= nTx {
 				return nil, ""
 			}
 			t := g.genTx(facts)
-			if mode == "swl" && len(t.Vetoes) == 0 {
-				g.addVeto(t)
+			if mode == "swl" {
+				if len(t.Vetoes) == 0 {
+					g.addVeto(t)
+				}
+				return t, g.genProg(t, mode)
 			}
-			return t, g.genProg(t, mode)
+			return t, g.shape(t, mode, kind)
 		}, mode, tmp)
 		if err != nil {
 			return err
@@ -770,7 +838,15 @@ func runC08(o *opts) error {
 		cases.line("%s", cl)
 		impl.line("%s", obs)
 		account(w, mode, txs, progs, obs)
+		stats["multi_type_registrations"] += len(regs)
+		if kind.sharedCtx {
+			stats["histories_shared_ctx"]++
+		}
+		if kind.coBatch {
+			stats["histories_coalesced_batch"]++
+		}
 	}
+	stats["batch_reruns_of_succeeded_function"] = c08Reruns
 	writeJSON(o.out, "stats.json", stats)
 	fmt.Fprintf(os.Stderr, "c08: %d histories (%d through Db.Batch, %d with swallowed vetoes)\n", n+nb+nsw, nb, nsw)
 	return nil
